@@ -349,9 +349,19 @@ def _stored_values(fb, f):
     return out
 
 
-def _is_clone_wrapped(v):
+def _is_clone_wrapped(v, f=None, depth=0):
     v = strip(v)
     if v is None:
+        return False
+    # std::move(x) / a named local holding the freshly built pointer: look at what the local was built from
+    if is_call(v) and v["callee"]["qname"] in ("std::move", "std::forward") and kids(v):
+        args = [x for x in kids(v) if x["k"] not in ("DeclRefExpr",) or x.get("decl", {}).get("kind") != "function"]
+        inner = strip(args[-1]) if args else None
+        return _is_clone_wrapped(inner, f, depth + 1) if inner is not None and depth < 3 else False
+    if v["k"] == "DeclRefExpr" and v["decl"]["kind"] == "local" and f is not None and depth < 3:
+        sub = local_inits(f)
+        if v["decl"]["id"] in sub:
+            return _is_clone_wrapped(sub[v["decl"]["id"]], f, depth + 1)
         return False
     # shared_ptr<Parameter>(X->clone())
     while v is not None and v["k"] in ("CXXConstructExpr", "CXXTemporaryObjectExpr", "CXXFunctionalCastExpr") and kids(v):
@@ -370,7 +380,7 @@ def _d3_d4(chk, fb):
             n_ins += 1
             into_this = strip(f.obj(n) if kind == "push" else f.obj(strip(f.obj(n))))["member"]["this"]
             vtxt = render(v)
-            clone = _is_clone_wrapped(v)
+            clone = _is_clone_wrapped(v, f)
             # ---- D4
             if f.cls == PL and f.name in SHARE_FUNCS:
                 if clone:
@@ -382,8 +392,13 @@ def _d3_d4(chk, fb):
                     chk.proved("D4", f.key, "takes-ownership", f.loc(n), "addParameter(Parameter*) adopts the caller's object (documented)")
                 elif clone:
                     chk.proved("D4", f.key, "copy-stores-clone", f.loc(n), "stores %s" % vtxt)
-                else:
+                elif any(x["k"] == "MemberExpr" and x["member"]["name"] == "parameters_" and bool(x["member"].get("this")) != bool(into_this) for x in walk(v)) or \
+                        any(x["k"] == "MemberExpr" and x["member"]["name"] == "parameters_" and not x["member"].get("this") and not into_this and
+                            render(x) != render(f.obj(n) if kind == "push" else f.obj(strip(f.obj(n)))) for x in walk(v)) or \
+                        any(is_call(x) and x["callee"]["name"] in ("getParameter", "getSharedParameter") for x in walk(v)):
                     chk.refuted("D4", f.key, "copy-stores-clone", f.loc(n), "copy function stores '%s' (the source's own pointer) instead of a clone(): the result is not independent of its source" % vtxt)
+                else:
+                    chk.unknown("D4", f.key, "copy-stores-clone", f.loc(n), "stored value '%s' is neither a recognisable clone nor the source's pointer" % vtxt)
             else:
                 chk.refuted("D3", f.key, "unclassified-insertion", f.loc(n), "parameters_ written outside the enumerated ParameterList members")
                 continue
@@ -403,20 +418,33 @@ def _d3_d4(chk, fb):
                     return False
                 ok, path = e1.guarded_by(cfg, cfg.stmt_block(n), est)
                 # the name tested must be the inserted parameter's name
-                tested = [render(f.args(x)[0]) for x in f.calls() if x["callee"]["name"] == "hasParameter"]
+                sub_ = local_inits(f)
+                tested = [render(f.args(x)[0], sub_) for x in f.calls() if x["callee"]["name"] == "hasParameter"]
                 base = vtxt
                 src = strip(v)
-                while src is not None and src["k"] in ("CXXConstructExpr", "CXXTemporaryObjectExpr", "CXXFunctionalCastExpr") and kids(src):
-                    src = strip(kids(src)[0])
+                for _ in range(6):
+                    if src is None:
+                        break
+                    if src["k"] in ("CXXConstructExpr", "CXXTemporaryObjectExpr", "CXXFunctionalCastExpr") and kids(src):
+                        src = strip(kids(src)[0])
+                    elif is_call(src) and src["callee"]["qname"] in ("std::move", "std::forward") and f.args(src):
+                        src = strip(f.args(src)[0])
+                    elif src["k"] == "DeclRefExpr" and src["decl"]["kind"] == "local" and src["decl"]["id"] in sub_:
+                        src = strip(sub_[src["decl"]["id"]])
+                    else:
+                        break
                 if is_call(src) and src["callee"]["name"] == "clone":
-                    base = render(f.obj(src))
+                    base = render(f.obj(src), sub_)
                 else:
-                    base = render(src)
+                    base = render(src, sub_)
                 name_ok = any(t == base + ".getName()" for t in tested)
+                recognisable = bool(re.match(r"^[\w\.\[\]\(\)\*>-]+$", base)) and "move" not in base
                 if ok and name_ok:
                     chk.proved("D3", f.key, "guarded-insertion", f.loc(n), "insertion of %s dominated by !hasParameter(%s.getName())" % (base, base))
                 elif not ok:
                     chk.refuted("D3", f.key, "guarded-insertion", f.loc(n), "parameter '%s' can be inserted without testing that its name is absent" % base, witness={"blocks": path})
+                elif not recognisable or not tested:
+                    chk.unknown("D3", f.key, "guarded-insertion", f.loc(n), "inserted value '%s' / tested names %s not in a comparable form" % (base, tested))
                 else:
                     chk.refuted("D3", f.key, "guarded-insertion", f.loc(n), "the name tested with hasParameter (%s) is not the name of the inserted parameter '%s'" % (tested, base))
     chk.floor("D3", "insertions into parameters_", n_ins, 9)
